@@ -61,6 +61,8 @@ type PContext struct {
 	originIfaceValue *hack.Iface
 	// proxyFunc 代理函数, 需要内存持续持有
 	proxyFunc reflect.Value
+	// keepAlive 桩代码中直接引用的所有函数对象(对 GC 不可见), 需要和接口变量同生命周期地持有
+	keepAlive []reflect.Value
 	// canceled 是否已经被取消
 	canceled bool
 }
@@ -115,6 +117,7 @@ func GenCallableMethod(ctx *IContext, apply interface{}, proxy PFunc) uintptr {
 		applyValue := reflect.ValueOf(apply)
 		mockFuncPtr := (*hack.Value)(unsafe.Pointer(&applyValue)).Ptr
 		methodCaller, err = MakeMethodCaller(mockFuncPtr)
+		ctx.p.keepAlive = append(ctx.p.keepAlive, applyValue)
 	} else {
 		// 生成桩代码,rdx 寄存器还原, 生成的调用将跳转到 proxy 函数
 		methodTyp := reflect.TypeOf(apply)
@@ -126,6 +129,7 @@ func GenCallableMethod(ctx *IContext, apply interface{}, proxy PFunc) uintptr {
 		mockFuncPtr := (*hack.Value)(unsafe.Pointer(&mockFunc)).Ptr
 		methodCaller, err = MakeMethodCallerWithCtx(mockFuncPtr, callStub)
 		ctx.p.proxyFunc = mockFunc
+		ctx.p.keepAlive = append(ctx.p.keepAlive, mockFunc)
 	}
 
 	if err != nil {
